@@ -239,6 +239,16 @@ def families(tier):
                                    version='1.17')
     qs['u+1+2'] = Query({'': G({'VCPU': None}), '_1': G({'VCPU': None}),
                          '_2': G({'VCPU': 1, 'DISK_GB': 1})}, policy='none')
+    # several groups naming different classes in the two versions that have
+    # granular groups but still restrict the summaries to requested classes
+    # (suffixes are digits only below 1.33)
+    qs['1+2-diffrc@1.25'] = Query({'1': G({'VCPU': None}),
+                                   '2': G({'DISK_GB': 1})}, policy='none',
+                                  version='1.25')
+    qs['u+1-diffrc@1.26'] = Query({'': G({'DISK_GB': None}),
+                                   '1': G({'VCPU': 1})}, version='1.26')
+    qs['1+u-diffrc@1.26'] = Query({'1': G({'VCPU': 1}),
+                                   '': G({'DISK_GB': None})}, version='1.26')
     quick = [('flat', 'u-vcpu-disk', True), ('tree', 'u+1-nopolicy', False),
              ('two', 'u+1-none', True), ('tree-t', 'u-req', False),
              ('flat', 'u-vcpu-disk@1.10', False),
@@ -248,7 +258,10 @@ def families(tier):
              ('tree', 'u+1+2-nonadj', False),
              ('flat', 'u+D-root-notsharing', False),
              # three classes whose capable trees may be disjoint
-             ('three', 'u-3rc', True), ('flat', 'u-disk', False)]
+             ('three', 'u-3rc', True), ('flat', 'u-disk', False),
+             ('flat', '1+2-diffrc@1.25', False),
+             ('flat', 'u+1-diffrc@1.26', False),
+             ('flat', '1+u-diffrc@1.26', False)]
     extra = [('two', '1+2+3-nonadj', False), ('two', 'u+1+2-nonadj', True),
              ('flat-s', 'u+1+2-nonadj', False),
              ('flat', 'u-vcpu-disk@1.36', True),
